@@ -121,4 +121,4 @@ def run(ctx: vlib.Ctx):
         except BaseException as e:  # noqa: BLE001 - C20/C14 own tool robustness; count only
             ctx.count("eject_json_raised:" + type(e).__name__)
     ctx.assumptions = ["the content model (tools/harness/docgen.py) is the oracle: expected content is computed without any parser",
-                       "reader value typing is proved (Props/C02); the document-level content theorem is an open proof target"]
+                       "proved for all inputs of the class: content preservation at document level for flat documents and arbitrarily nested blocks with scalar values (Props/C01roundtrip, C01tree), list values at parser level (C02lists), reader value typing; documents with comments, META, sections, lists inside documents, zones: open proof targets, decided by the content oracle and the correspondence"]
